@@ -9,6 +9,10 @@
                       proposes only candidates that are currently unassigned, taken from the requirement's cached candidates
   undo-total          undo_until stops only at a decision whose level is <= the target (or on an empty trail; level 0 clears);
                       undo_last pops the trail and resets exactly that variable in the decision map
+
+Added after the second and third seeding rounds:
+  trail-shrinks  decisions leave DecisionTracker.stack only through undo_last's pop (which resets their map entry)
+  antecedents    (shared with C03) a learnt clause keeps every lower-level literal it was derived from
 """
 from common import *
 import q, enc
